@@ -210,8 +210,23 @@ pub fn replay_history(args: &Args) {
             let game = tree::build(&t2).map_err(|e| format!("from_root: {e:?}"))?;
             let mut strat = game.from_named(tree::named(&t2, &prof)).map_err(|e| format!("from_named: {e:?}"))?;
             let mut seen: Vec<Option<[f64; 4]>> = Vec::new();
+            // the second object of the "pair" histories: initially a clone of the first
+            let mut snap = strat.clone();
             for step in hist2.iter() {
                 match step["op"].as_str().unwrap() {
+                    "snap" => {
+                        snap = strat.clone();
+                        seen.push(None);
+                    }
+                    "swap" => {
+                        std::mem::swap(&mut strat, &mut snap);
+                        seen.push(None);
+                    }
+                    "dist" => {
+                        let d = strat.distance(&snap, 1.0);
+                        let e = snap.distance(&strat, 1.0);
+                        seen.push(Some([d[0], d[1], e[0], e[1]]));
+                    }
                     "eval" => {
                         let i = strat.get_info();
                         seen.push(Some([i.player_utility(PlayerNum::One), i.player_regret(PlayerNum::One), i.player_regret(PlayerNum::Two), i.regret()]));
@@ -257,6 +272,14 @@ pub fn replay_history(args: &Args) {
                         continue;
                     }
                     judged += 1;
+                    if step["op"] == "dist" {
+                        let want = [util::rat(&obs["d1"]), util::rat(&obs["d2"]), util::rat(&obs["d1"]), util::rat(&obs["d2"])];
+                        if got.iter().zip(want.iter()).any(|(a, b)| !util::close(*a, *b, 1e-12)) {
+                            bad.push(json!({"class": "history-distance", "what": "the distance of two objects does not describe their current states", "step": k + 1, "ops": ops,
+                                "observed": got.to_vec(), "specified": want.to_vec()}));
+                        }
+                        continue;
+                    }
                     let want = [util::rat(&obs["util"]), util::rat(&obs["r1"]), util::rat(&obs["r2"]), util::rat(&obs["total"])];
                     if got.iter().zip(want.iter()).any(|(a, b)| !util::close(*a, *b, 1e-11)) {
                         bad.push(json!({"class": "history", "what": "an evaluation does not describe the current state of the object", "step": k + 1, "ops": ops,
